@@ -547,6 +547,75 @@ func (in *inliner) expandStmt(h *helperInfo, call *ast.CallExpr, targets []ast.E
 		_, lastIsReturn = body.List[l-1].(*ast.ReturnStmt)
 	}
 	needLabel := !keepReturns && (nReturns > 1 || (nReturns == 1 && !lastIsReturn))
+	// `return x` as the only, final return, x a local of the helper, and the call defines fresh
+	// variables: the helper's x IS the caller's variable (no `v := x` hand-over in between)
+	if !keepReturns && nReturns == 1 && lastIsReturn && tok == token.DEFINE {
+		ret := body.List[len(body.List)-1].(*ast.ReturnStmt)
+		if len(ret.Results) == len(targets) && len(targets) > 0 {
+			remap := map[types.Object]types.Object{}
+			ok := true
+			for i, r := range ret.Results {
+				rid, isID := ast.Unparen(r).(*ast.Ident)
+				tid, isTID := targets[i].(*ast.Ident)
+				if !isID || !isTID || tid.Name == "_" {
+					ok = false
+					break
+				}
+				ro, _ := in.info.Uses[rid].(*types.Var)
+				to := in.info.Defs[tid]
+				if ro == nil || to == nil || ro.IsField() || ro.Parent() == nil || ro.Pkg() == nil || ro.Parent() == ro.Pkg().Scope() {
+					ok = false
+					break
+				}
+				if _, dup := remap[ro]; dup {
+					ok = false
+					break
+				}
+				remap[ro] = to
+			}
+			// parameters substituted or bound are not helper locals in this sense
+			for _, id := range ids {
+				if o := in.info.Defs[id]; o != nil {
+					if _, isRes := remap[o]; isRes {
+						ok = false
+					}
+				}
+			}
+			if ok {
+				ast.Inspect(body, func(n ast.Node) bool {
+					if id, isID := n.(*ast.Ident); isID {
+						if to, hit := remap[in.info.Uses[id]]; hit {
+							in.info.Uses[id] = to
+						}
+						if to, hit := remap[in.info.Defs[id]]; hit {
+							in.info.Defs[id] = to
+						}
+					}
+					return true
+				})
+				for _, nm := range named {
+					if to, hit := remap[in.info.Defs[nm]]; hit {
+						_ = to
+					}
+				}
+				body.List = body.List[:len(body.List)-1]
+				nReturns, lastIsReturn = 0, false
+				// named results that became the caller's variables need no declaration of their own
+				var keepNamed []*ast.Ident
+				for _, nm := range named {
+					if _, hit := remap[in.info.Defs[nm]]; !hit {
+						keepNamed = append(keepNamed, nm)
+					} else {
+						// declare the caller's variable where the helper declared its result
+						nid := &ast.Ident{Name: nm.Name, NamePos: call.Pos()}
+						in.info.Defs[nid] = remap[in.info.Defs[nm]]
+						pre = append(pre, &ast.DeclStmt{Decl: &ast.GenDecl{Tok: token.VAR, TokPos: call.Pos(), Specs: []ast.Spec{&ast.ValueSpec{Names: []*ast.Ident{nid}}}}})
+					}
+				}
+				named = keepNamed
+			}
+		}
+	}
 	mkAssign := func(r *ast.ReturnStmt) []ast.Stmt {
 		var out []ast.Stmt
 		res := r.Results
